@@ -35,7 +35,7 @@ func Spec() *mon.Spec {
 		ID:    "C03",
 		Level: "exploration",
 		Rule: "sweep: every byte string of length 0..3 (2^24+65793 messages) through packet.CRC16, checked against the bit-serial reference, against the one-byte reference step applied to CRC16(prefix), and that 2-byte prefixes reach all 65536 register states (=> every state x byte transition exercised; exhaustive for that space). " +
-			"long: PRNG messages of length 4..70000 (dense at 255..257 and 65535..65537) incl. split/continue check. frames: trailer of every RTU Bytes() of requests (constructors + struct literals), responses and ErrorResponseRTU equals reference CRC low byte first. " +
+			"long: PRNG messages of length 4..70000 (dense at 255..257 and 65535..65537) incl. split/continue check. frames: trailer of every RTU Bytes() of requests (constructors + struct literals), responses, ErrorResponseRTU and ErrorParseRTU (constructed and returned by the RTU request parsers) equals reference CRC low byte first. " +
 			"trailer: for frames the CRC-less parser accepts, all 65536 trailer values: WithCRC parser succeeds iff trailer==CRC, refusal is ErrInvalidCRC. distinct key = (kind, length class or fc, first byte / unit).",
 		Assumptions: []string{"reference CRC is the bit-serial shift register in specref (different algorithm shape), validated against 4 published vectors",
 			"exhaustive:true refers to the length<=3 message space (all state x byte transitions of the fold); longer messages are sampled"},
@@ -448,6 +448,23 @@ func runFrames(c *Case, r *mon.Rec) {
 		}
 		e := packet.ErrorResponseRTU{UnitID: libx.U8(rng), Function: fc, Code: libx.U8(rng)}
 		checkTrailer(c, r, "exception", e.Bytes())
+		// the sendable parse errors: the ones the library's own RTU request parsers hand to a server for an
+		// out-of-range request, and the constructor a server uses for its own catch-all replies
+		bad := specref.Req{FC: fc, Unit: q.Unit, Addr: q.Addr}
+		if rfr := bad.Encode(specref.RTU); rfr != nil {
+			_, perr := packet.ParseRTURequestWithCRC(rfr)
+			var pe *packet.ErrorParseRTU
+			if errors.As(perr, &pe) {
+				checkTrailer(c, r, "parse-error-from-parser", pe.Bytes())
+				r.Cover("parse-error-emitter", fmt.Sprintf("parser-fc%d", fc))
+			}
+		}
+		code := []uint8{0, 1, 2, 3, 4, libx.U8(rng)}[rng.Intn(6)]
+		pe := packet.NewErrorParseRTU(code, "x")
+		checkTrailer(c, r, "parse-error-constructed", pe.Bytes())
+		pe.Packet.UnitID, pe.Packet.Function = libx.U8(rng), fc
+		checkTrailer(c, r, "parse-error-constructed", pe.Bytes())
+		r.Cover("parse-error-emitter", "constructor")
 	}
 	r.Cover("kind", "frames-batches")
 }
@@ -459,6 +476,9 @@ func runErrCube(c *Case, r *mon.Rec) {
 			e := packet.ErrorResponseRTU{UnitID: uint8(c.Unit), Function: uint8(fc), Code: uint8(code)}
 			fr := e.Bytes()
 			n++
+			if w := (packet.ErrorParseRTU{Packet: e}).Bytes(); len(w) != 5 || w[3] != byte(specref.CRC(w[:3])) || w[4] != byte(specref.CRC(w[:3])>>8) {
+				r.Violate(c, "trailer-not-crc", mon.Attrs{"what": "parse-error-wrapper"}, fmt.Sprintf("unit %d fc %d code %d -> % x", c.Unit, fc, code, w))
+			}
 			if len(fr) != 5 {
 				r.Violate(c, "rtu-frame-too-short", mon.Attrs{"what": "exception"}, fmt.Sprintf("% x", fr))
 				continue
